@@ -153,6 +153,8 @@ def check(pid, tier):
     samples = []
     disagreements = []
     for ci, case in enumerate(cases):
+        if hasattr(P, "begin_case"):
+            P.begin_case(case)
         for oi, op in enumerate(case):
             if op.startswith("img "):
                 continue
@@ -168,7 +170,7 @@ def check(pid, tier):
                 samples.append({"op": op[:300], "impl": (ia or "")[:300], "model": (ma or "")[:300], "spec": spec[:300]})
             j = P.judge(op, ia or "none", ma or "none", spec)
             if j:
-                sig = "%s => %s" % (op, ia)
+                sig = "%s => %s ## %s" % (op, ia, spec)
                 kf = next((k for k in known if k["re"].search(sig)), None)
                 if kf:
                     if kf["text"] not in known_printed:
